@@ -6,15 +6,17 @@ TOK = [R('RCP<const Basic>', 'RCPBasic', n='*', why="RCP<const Basic> -> field e
        R('numeric_cast<unsigned>(', 'numeric_cast_unsigned(', n=1, why="template syntax; identity on an in-range size")]
 
 def units(tier):
-    grid = [(5, 3, 2), (5, 4, 2), (7, 4, 2)]
+    grid = [(5, 3, 2), (5, 4, 2), (7, 4, 2), (5, 4, 3)]
     if tier == 'thorough':
-        grid += [(7, 5, 2), (5, 4, 3), (7, 4, 3), (7, 5, 3), (7, 6, 2)]
+        grid += [(7, 5, 2), (7, 4, 3), (7, 5, 3), (7, 6, 2)]
     ents = []
     for p, ln, md in grid:
         cap = 16 if ln * (md + 1) <= 16 else 20
         uw = ['h_fdiff.%d:%d' % (k, ln + 2) for k in range(0, 8)] + ['fpow.0:%d' % (ln + 1)]
         ents.append(Entry('h_fdiff', defines={'FP': p, 'LEN': ln, 'MD': md, 'CAP': cap}, route='B', timeout=900 if tier == 'quick' else 3000, mem_gb=6,
                           unwind=ln * (md + 1) + 2, bounds="grid of %d pairwise distinct points and any centre over GF(%d), max_deriv = %d" % (ln, p, md)))
+    ents.append(Entry('h_fdiff_second_call', defines={'FP': 5, 'LEN': 3, 'MD': 2, 'CAP': 16}, route='B', timeout=900, mem_gb=6, unwind=11,
+                      bounds="two consecutive calls on grids of 3 distinct points over GF(5), max_deriv = 2"))
     u = Unit('fdiff', 'C38', 'contracts/C38/fdiff.cpp', {'fd.inc': [Piece(FD, r'vec_basic generate_fdiff_weights_vector\(const vec_basic &grid,', rules=TOK)]},
              ents, route='B',
              trusted=["field prelude prelude/field.h: exact-number arithmetic of symengine (add/sub/mul/div/integer) implements a field; checked over GF(p), p in {5,7}",
